@@ -3,31 +3,25 @@ import json, os
 from vlib import core
 
 THEOREMS = ["Props.C04." + t for t in [
-    "pipeline_order", "check_order_complete", "type_categories",
-    "anywhere_in_graph", "anywhere_in_graph_resolve",
-    "dup_global_rejected", "dup_symbol_rejected", "dup_field_name_rejected", "dup_field_id_rejected",
-    "dup_function_rejected", "dup_enum_value_name_rejected", "dup_enum_number_rejected", "enum_out_of_int32_rejected",
-    "oneway_nonvoid_rejected", "oneway_throws_rejected",
-    "union_second_default_rejected_partial", "union_check_never_fires",
-    "undefined_type_rejected", "undefined_qualified_type_rejected", "nontype_symbol_as_type_rejected",
-    "unknown_base_service_rejected", "typedef_cycle_rejected",
-    "undefined_const_rejected", "undefined_or_ambiguous_const_rejected",
-    "include_cycle_rejected", "abstract_stage_rejected",
-    "reject_writes_nothing", "no_crash_partial", "no_exit0_without_output_partial", "no_exit0_without_output",
-    "union_second_default_witness", "crash_witness", "dup_argument_witness"]]
+    "pipeline_order", "code_facts", "check_order_complete", "type_categories", "anywhere_in_graph",
+    "anywhere_in_graph_resolve", "dup_global_rejected", "dup_symbol_rejected", "dup_field_name_rejected",
+    "dup_field_id_rejected", "dup_function_rejected", "dup_argument_rejected", "dup_enum_value_name_rejected",
+    "dup_enum_number_rejected", "enum_out_of_int32_rejected", "oneway_nonvoid_rejected", "oneway_throws_rejected",
+    "union_second_default_rejected", "union_check_never_fires", "undefined_type_rejected",
+    "undefined_qualified_type_rejected", "nontype_symbol_as_type_rejected", "unknown_base_service_rejected",
+    "typedef_cycle_rejected", "undefined_const_rejected", "undefined_or_ambiguous_const_rejected",
+    "include_cycle_rejected", "abstract_stage_rejected", "reject_writes_nothing", "no_crash",
+    "no_exit0_without_output_partial", "no_exit0_without_output", "union_second_default_regression",
+    "typedef_cycle_ident_regression", "dup_argument_regression", "argument_default_regression"]]
 
 PARTIAL = [
-    "union_second_default_rejected_partial: holds only under the regenerated fact unionSetsHasDefault=true; on the current source "
-    "CheckUnions never assigns hasDefault (union_check_never_fires, union_second_default_witness)",
-    "no_crash_partial: excludes dotted constant identifiers that select through a typedef; with a typedef cycle getEnum "
-    "overflows the stack (crash_witness)",
-    "no_exit0_without_output: full only through the regenerated fact handlePanicExits=true (main.handlePanic calls "
-    "os.Exit(2) since 035596c); panics of the parser and of the backend themselves are predicates of Env, not modelled code",
-    "dup_field_name_rejected / dup_field_id_rejected: struct, union, exception only; argument and throws lists are not "
-    "checked by the code (dup_argument_witness)",
-    "resolver-stage theorems carry `outcome != crash` (same getEnum defect)",
+    "all rule theorems are full on the model; what stays partial is the model's reach:",
     "syntax errors, missing includes, command-line errors and backend constant typing are abstract predicates "
     "(abstract_stage_rejected); they are tied by the oracle on the binary only",
+    "no_exit0_without_output_partial / no_exit0_without_output: panics of the parser and of the backend are predicates of Env, "
+    "not modelled code; full only through the regenerated fact handlePanicExits=true (035596c)",
+    "union_second_default_rejected, dup_argument_rejected, no_crash, undefined_const_rejected at argument defaults: full since "
+    "the repairs 69b2ce1, 0b3502e, 58e7614, 4fd3a1e (obligation code_facts re-checks that they are still in the source)",
 ]
 
 
